@@ -1,12 +1,12 @@
 CONSTANTS
-  AnyOrder = FALSE
+  AnyOrder = TRUE
   MinItems = 0
-  NC = 2
-  L = 3
+  NC = 3
+  L = 2
   MaxItems = 3
-  MaxPerChrom = 2
-  IPS = {1}
-  ZoomLists = "b"
+  MaxPerChrom = 1
+  IPS = {1, 2}
+  ZoomLists = "c"
   EndSlack = 1
 INIT Init
 NEXT Next
